@@ -202,6 +202,17 @@ class TObj(TRefBase):
         return f"Obj[{self.cls}]"
 
 
+_CARD = {}
+
+
+def card_fn(content_sort):
+    """Uninterpreted cardinality of a set/dict content (axioms are added where len() is used)."""
+    k = str(content_sort)
+    if k not in _CARD:
+        _CARD[k] = z3.Function("card_" + "".join(c if c.isalnum() else "_" for c in k), content_sort, z3.IntSort())
+    return _CARD[k]
+
+
 class ClassInfo:
     def __init__(self, name, bases=(), fields=None, truthy=None):
         self.name = name
@@ -293,6 +304,14 @@ class SymIter:
         self.extra = extra or {}
 
 
+class LazyContainer:
+    """A dict/set literal whose element types are not known until it is first stored into a typed
+    slot (field, container entry, parameter).  Resolution allocates one heap object; identity is kept."""
+
+    def __init__(self, kind, items=()):
+        self.kind, self.items, self.resolved = kind, list(items), None
+
+
 class PyExc(Exception):
     """A Python exception raised by the interpreted program."""
 
@@ -374,7 +393,7 @@ class Obligation:
 # Path: the mutable state of one symbolic execution
 # --------------------------------------------------------------------------
 
-FEAS_TIMEOUT_MS = 1500
+FEAS_TIMEOUT_MS = 400
 
 
 def has_quantifier(f, _cache={}):
@@ -403,13 +422,15 @@ def has_quantifier(f, _cache={}):
 
 
 class Path:
-    def __init__(self, prefix, axioms=(), feas_timeout=FEAS_TIMEOUT_MS):
+    def __init__(self, prefix, axioms=(), feas_timeout=FEAS_TIMEOUT_MS, forced=()):
         self.prefix = list(prefix)
+        self.forced = list(forced)
         self.taken: list[bool] = []
         self.alternatives: list[list[bool]] = []
         self.pc: list = []
-        self.solver = z3.Solver()
+        self.solver = z3.SimpleSolver()
         self.solver.set("timeout", feas_timeout)
+        self.solver.set("mbqi", False)
         for a in axioms:
             self.sadd(a)
             self.pc.append(a)
@@ -428,12 +449,24 @@ class Path:
         self.dropped: list[str] = []
         self.feas_unknown = 0
         self.terms_created: list = []
+        self.local_refs: list = []
+        self.escaped: set = set()
 
     def sadd(self, f):
         """Feasibility solver sees only the quantifier-free part of the path condition
         (over-approximates feasibility: sound, and keeps branch checks in milliseconds)."""
         if not has_quantifier(f):
             self.solver.add(f)
+
+    def hint(self, term):
+        """Make a ground term visible to E-matching (witness hints); logically a tautology."""
+        srt = term.sort()
+        h = z3.Function("hint_" + "".join(c if c.isalnum() else "_" for c in str(srt)), srt, z3.BoolSort())
+        f = z3.Or(h(term), z3.Not(h(term)))
+        f = h(term) == h(term)
+        # keep it from being simplified away: assert h(term) for an uninterpreted h (h is otherwise free)
+        self.pc.append(h(term))
+        self.solver.add(h(term))
 
     # ---- fresh names -----------------------------------------------------
     def fresh_name(self, base):
@@ -450,6 +483,12 @@ class Path:
         if isinstance(f, bool):
             if not f:
                 raise Infeasible()
+            return
+        if z3.is_expr(f) and z3.is_and(f):
+            for ch in f.children():
+                self.assume(ch)
+            if why:
+                self.assumed.append(why)
             return
         f = z3.simplify(f) if z3.is_expr(f) else f
         if z3.is_false(f):
@@ -493,6 +532,10 @@ class Path:
         i = len(self.taken)
         if i < len(self.prefix):
             d = self.prefix[i]
+        elif i < len(self.forced):
+            d = self.forced[i]
+            if self.check_sat(cond if d else z3.Not(cond)) == z3.unsat:
+                raise Infeasible()
         else:
             rt = self.check_sat(cond)
             rf = self.check_sat(z3.Not(cond))
@@ -525,8 +568,35 @@ class Path:
         return n - 1
 
     # ---- type injection / projection --------------------------------------
+    def resolve_lazy(self, lz, ty):
+        if lz.resolved is None:
+            if isinstance(ty, TDict) and lz.kind == "dict":
+                c = ty.empty()
+                os_ = option_sort(ty.v.sort())
+                for k, v in lz.items:
+                    c = z3.Store(c, self.inject(ty.k, k), os_.some(self.inject(ty.v, v)))
+                lz.resolved = self.new_ref(ty, c)
+            elif isinstance(ty, TSet) and lz.kind == "set":
+                c = ty.empty()
+                for k in lz.items:
+                    c = z3.Store(c, self.inject(ty.k, k), True)
+                lz.resolved = self.new_ref(ty, c)
+            else:
+                raise Unsupported(f"{lz.kind} literal stored where {ty!r} is expected")
+        elif lz.resolved.ty != ty:
+            raise Unsupported(f"container literal used at two types {lz.resolved.ty!r} / {ty!r}")
+        return lz.resolved
+
     def inject(self, ty: Ty, v):
         """Runtime value -> z3 expression of ty.sort()."""
+        if isinstance(v, LazyContainer):
+            t2 = ty.inner if isinstance(ty, TOpt) else ty
+            return self.resolve_lazy(v, t2).z
+        if isinstance(v, ConcreteSeq) and isinstance(ty.inner if isinstance(ty, TOpt) else ty, TList):
+            t2 = ty.inner if isinstance(ty, TOpt) else ty
+            zs = [z3.Unit(self.inject(t2.v, x)) for x in v.items]
+            c = t2.empty() if not zs else (zs[0] if len(zs) == 1 else z3.Concat(*zs))
+            return self.new_ref(t2, c).z
         if isinstance(ty, TOpt):
             if ty.inner.is_ref:
                 if v is None:
@@ -538,6 +608,22 @@ class Path:
             return os_.some(self.inject(ty.inner, v))
         if v is None:
             raise PyExc("TypeError", ("None where %r expected" % (ty,),))
+        if isinstance(v, SV) and isinstance(v.ty, TOpt) and not isinstance(ty, TOpt):
+            # an optional value used where a value is required
+            if self.ghost.get("__pure__", 0) > 0:
+                binders = self.ghost.get("__binders__", [])
+                guard = z3.And(*[g for _, g in binders]) if binders else z3.BoolVal(True)
+                xs = [x for x, _ in binders]
+                if v.ty.inner.is_ref:
+                    notnone, inner = v.z != 0, v.z
+                else:
+                    os_ = option_sort(v.ty.inner.sort())
+                    notnone, inner = z3.Not(os_.is_none(v.z)), os_.get(v.z)
+                f = z3.Implies(guard, notnone)
+                self.oblige("optional-not-none-under-binder", z3.ForAll(xs, f) if xs else f, "", "typing")
+                return self.inject(ty, SV(v.ty.inner, inner))
+            pv = self.project(v.ty, v.z)
+            return self.inject(ty, pv)
         if ty is INT or isinstance(ty, _TInt):
             if isinstance(v, bool):
                 return z3.IntVal(int(v))
@@ -621,7 +707,21 @@ class Path:
         ref = SV(ty, z3.simplify(r))
         if not isinstance(ty, TObj):
             self.set_content(ref, content if content is not None else ty.empty())
+        self.local_refs.append(ref)
         return ref
+
+    def note_escape(self, v):
+        """A reference stored into the heap may be reached by other code from then on."""
+        if isinstance(v, SV) and v.ty.is_ref:
+            self.escaped.add(v.z.get_id())
+        elif isinstance(v, tuple):
+            for x in v:
+                self.note_escape(x)
+        elif isinstance(v, LazyContainer) and v.resolved is not None:
+            self.note_escape(v.resolved)
+
+    def unescaped_locals(self):
+        return [r for r in self.local_refs if r.z.get_id() not in self.escaped and not isinstance(r.ty, TObj)]
 
     def field_arr(self, cls, fname):
         owner, fty = field_type(cls, fname)
@@ -693,7 +793,7 @@ class PathResult:
         self.path, self.outcome, self.value, self.exc = path, outcome, value, exc
 
 
-def explore(run_one, axioms=(), max_paths=4000, deadline=None):
+def explore(run_one, axioms=(), max_paths=4000, deadline=None, forced=()):
     """run_one(path) executes one path and returns (outcome, value).
 
     Returns list[PathResult].  outcome in {'return','raise','end','unsupported'}"""
@@ -707,15 +807,21 @@ def explore(run_one, axioms=(), max_paths=4000, deadline=None):
             raise Unsupported(f"more than {max_paths} paths")
         if deadline and time.time() > deadline:
             raise Unsupported("path exploration deadline")
-        p = Path(prefix, axioms)
+        p = Path(prefix, axioms, forced=forced)
+        res = None
         try:
             out = run_one(p)
-            results.append(PathResult(p, out[0], out[1]))
+            res = PathResult(p, out[0], out[1])
         except Infeasible:
             pass
         except PathEnd as e:
-            results.append(PathResult(p, "end", e.why))
+            res = PathResult(p, "end", e.why)
         except PyExc as e:
-            results.append(PathResult(p, "raise", None, e))
+            res = PathResult(p, "raise", None, e)
+        if res is not None:
+            # a path shorter than the forced prefix belongs to the all-True completion only
+            n = len(p.taken)
+            if n >= len(forced) or all(forced[n:]):
+                results.append(res)
         work.extend(p.alternatives)
     return results
